@@ -702,6 +702,40 @@ func main() {
 		}
 		addCase(w, &s, r)
 	}
+	// round 7 streams (appended, own generators: the cases above are unchanged by them):
+	// the Norm users in every dimension 1..12 with one slow coordinate, and saga with the
+	// built-in regularisation options on well conditioned data
+	if os.Getenv("C07_ONLY") == "" {
+		nNorm, nReg := 60, 24
+		if o.N > 2000 {
+			nNorm, nReg = 240, 96
+		}
+		r7 := NewRng(o.Seed ^ 0x7c07)
+		for i, got := 0, 0; got < nNorm+nReg && i < 4*(nNorm+nReg); i++ {
+			var s Spec
+			if got < nNorm {
+				s = normStreamSpec(r7.Split(), got, false)
+			} else {
+				s = genSagaRegSpec(r7.Split())
+			}
+			r := runSpec(&s)
+			if r.Dropped != "" {
+				w.Count("dropped:" + r.Dropped)
+				if got < nNorm {
+					got++ // keep the (dimension, routine) cycle aligned
+				}
+				continue
+			}
+			if got < nNorm {
+				w.Count(fmt.Sprintf("r7_normdim:dim%d", len(s.X0)))
+				w.Count("r7_normdim:" + s.Routine + ":" + map[int]string{0: "ok", 1: "hookstop", 2: "error", 3: "panic"}[r.Kind])
+			} else {
+				w.Count("r7_sagareg:" + s.Mode)
+			}
+			addCase(w, &s, r)
+			got++
+		}
+	}
 	if err := w.Flush(); err != nil {
 		Die("flush: %v", err)
 	}
@@ -753,6 +787,11 @@ func genOnly(which string, r *Rng) Spec {
 		return genSagaSpec(r)
 	case "blahut":
 		return genBlahutSpec(r)
+	case "normdim":
+		i := r.Intn(60)
+		return normStreamSpec(r, i, false)
+	case "sagareg":
+		return genSagaRegSpec(r)
 	}
 	return genSpec(r)
 }
